@@ -358,6 +358,10 @@ def do_check(pid, spec, tier, seed, t0):
     shown = 0
     for v in unl:
         part = v.pop('_part')
+        if len(seen) >= 200:
+            # enough replay files: further violating cases are counted, not written out
+            seen.add('overflow-%d' % len(seen))
+            continue
         path = write_replay(pid, part, v)
         if path in seen:
             continue
